@@ -93,6 +93,13 @@ Scenarios ==
   { Scenario("spoof", p, k, TRUE, FALSE, "vf.test", c, <<"curl/8">>, FALSE, "GET", "/a", ls) :
       p \in Protos, k \in ConnKinds, c \in CustomOutcomes, ls \in SubSeqs(SpoofLines, MaxLines) }
   \cup
+  \* C05: a protocol upgrade request (HTTP/1.1) that names fingerprint headers in Connection next to the Upgrade token and supplies values for them
+  { Scenario("spoof", "h1", k, TRUE, FALSE, "vf.test", c, <<"curl/8">>, FALSE, "GET", "/a", ls) :
+      k \in {"normal", "tworec"}, c \in {"absent", "value"},
+      ls \in { << L("Connection", "Upgrade, X-JA3-Fingerprint", "canon"), L("Upgrade", "websocket", "canon"), L(JA3K, "evil3", "canon") >>,
+               << L(JA3K, "evil3", "lower"), L(H2K, "evilh2", "canon"), L(JA4K, "evil4", "canon"), L("Upgrade", "websocket", "canon"), L("Connection", "x-http2-fingerprint, upgrade, x-ja4-fingerprint", "lower") >>,
+               << L("Connection", "Upgrade, X-JA3-Fingerprint", "canon"), L("Upgrade", "websocket", "canon") >> } }
+  \cup
   \* C09: forwarding headers
   { Scenario("fwd", p, "normal", TRUE, ph, h, "absent", <<"curl/8">>, FALSE, "GET", "/a", ls) :
       p \in Protos, ph \in BOOLEAN, h \in {"vf.test", "other.example:8443", "default.example:443", "[2001:db8::1]:443"}, ls \in SubSeqs(FwdLines, MaxLines) }
@@ -174,10 +181,15 @@ IsProbe == /\ Len(req.ua) > 0
 
 \* names listed in Connection are hop-by-hop for this request
 ConnTokens(v) == CASE v = "x-hop" -> {"X-Hop"}
+                   [] v = "Upgrade, X-JA3-Fingerprint" -> {"Upgrade", JA3K}
+                   [] v = "x-http2-fingerprint, upgrade, x-ja4-fingerprint" -> {"Upgrade", H2K, JA4K}
                    [] v = "x-ja3-fingerprint" -> {JA3K}
                    [] v = "keep-alive, X-JA4-Fingerprint" -> {"Keep-Alive", JA4K}
                    [] OTHER -> {}
 ConnListed == UNION { ConnTokens(InH[n][2]) : n \in { m \in 1..Len(InH) : InH[m][1] = "Connection" } }
+
+\* upgradeType(): the Upgrade field's value if Connection names the token Upgrade
+UpgradeType == IF "Upgrade" \in ConnListed /\ Values(InH, "Upgrade") # <<>> THEN Values(InH, "Upgrade")[1] ELSE ""
 
 \* ---------------------------------------------------------------- pipeline
 Init == /\ req \in Scenarios
@@ -203,7 +215,9 @@ CloneOut == /\ pc = "clone" /\ outH' = InH /\ outHost' = req.host /\ pc' = "hop"
 DropHopByHop == /\ pc = "hop"
                 /\ LET keepTe == \E n \in 1..Len(outH) : outH[n] = <<"Te", "trailers">>
                        h1 == SelectSeq(outH, LAMBDA l : l[1] \notin ConnListed /\ l[1] \notin HopByHop)
-                   IN  outH' = IF keepTe THEN h1 \o << <<"Te", "trailers">> >> ELSE h1
+                       h2 == IF keepTe THEN h1 \o << <<"Te", "trailers">> >> ELSE h1
+                   IN  \* a protocol upgrade the client asks for is passed on: Connection: Upgrade and the Upgrade field are put back
+                       outH' = IF UpgradeType # "" THEN h2 \o << <<"Connection", "Upgrade">>, <<"Upgrade", UpgradeType>> >> ELSE h2
                 /\ pc' = "strip"
                 /\ UNCHANGED <<req, outHost, local, forwarded, rejected, i>>
 
@@ -271,6 +285,8 @@ ProbeXor == (Done /\ ~rejected) => /\ local # forwarded
 EndToEnd == { k \in Keys(InH) : k \notin HopByHop /\ k \notin ConnListed /\ k \notin {XFF, XFH, XFP, FWD}
                                  /\ k \notin { Injectors[n] : n \in 1..Len(Injectors) } }
 HeadersKept == Fwd => /\ \A k \in EndToEnd : Values(outH, k) = Values(InH, k)
-                      /\ \A k \in ((HopByHop \ {"Te"}) \cup ConnListed) \ { Injectors[n] : n \in 1..Len(Injectors) } : Values(outH, k) = <<>>
+                      /\ \A k \in ((HopByHop \ {"Te"}) \cup ConnListed) \ ({ Injectors[n] : n \in 1..Len(Injectors) } \cup (IF UpgradeType # "" THEN {"Connection", "Upgrade"} ELSE {})) :
+                            Values(outH, k) = <<>>
+                      /\ UpgradeType # "" => Values(outH, "Connection") = <<"Upgrade">> /\ Values(outH, "Upgrade") = <<UpgradeType>>
 HostRule == Fwd => outHost = IF req.preserveHost THEN req.host ELSE "BACKEND"
 =============================================================================
